@@ -389,17 +389,17 @@ theorem messageUnpack_enc {buf : Bytes} {m : Msg} (h : EncMsg buf m) :
   have g1 : ¬ (m.hdr.qdcount ≠ 1) := by simp [hqd]
   simp only [g1, ↓reduceIte, hq]
   by_cases hrc : m.hdr.rcode ≠ 0
-  · simp only [hrc, ↓reduceIte]
-  · simp only [hrc, ↓reduceIte]
+  · simp only [if_pos hrc]
+  · simp only [if_neg hrc]
     by_cases han0 : m.hdr.ancount = 0
-    · have : m.answers = [] := List.length_eq_zero_iff.mp (by omega)
-      simp only [han0, ↓reduceIte, this, List.length_nil]
+    · have hnil : m.answers = [] := List.length_eq_zero_iff.mp (by omega)
+      simp only [if_pos han0, hnil, List.length_nil]
       cases m
       simp_all
-    · simp only [han0, ↓reduceIte]
+    · simp only [if_neg han0]
       rw [han, rrLoop_enc hrrs]
       cases hm : m.answers with
-      | nil => simp [hm] at han; omega
+      | nil => rw [hm] at han; simp at han; omega
       | cons rr rest =>
         simp only [List.length_cons]
         cases m
